@@ -31,6 +31,7 @@ type BStr []Value
 type Slice struct {
 	a   []Value // a[0:len] are the elements, cap(a) is the capacity
 	nil bool
+	sym *Term // []byte view of a symbolic string of unknown length (read-only: len, [:], string())
 }
 
 type Iface struct {
